@@ -281,6 +281,7 @@ package option
 // Synopsis: the option's help synopsis names every alias with its dashes (C18).
 //@ spec func Dashed(e string) string = ite(len(e) > 1, "--" ++ e, ite(e != "-", "-" ++ e, e))
 
+//@ spec func SortedByName(list []*Option) bool = forall i int, j int :: 0 <= i && i < j && j < len(list) ==> list[i].Name <= list[j].Name
 // Sort: orders the list by option name in place. Trusted (sort.Slice with a comparison closure over the slice itself is
 // outside the slice-value model): the list afterwards holds the same records.
 //@ func Sort
@@ -291,6 +292,7 @@ package option
 //@   ensures sort.kinds {C18}: (forall i int :: 0 <= i && i < len(list) ==> list[i] != nil && KindOK(list[i].OptType)) ==> (forall i int :: 0 <= i && i < len(list) ==> final(list)[i] != nil && KindOK(final(list)[i].OptType))
 //@   ensures sort.flags {C18}: (forall i int :: 0 <= i && i < len(list) ==> list[i].IsRequired) ==> (forall i int :: 0 <= i && i < len(list) ==> final(list)[i].IsRequired)
 //@   ensures sort.noflags {C18}: (forall i int :: 0 <= i && i < len(list) ==> !list[i].IsRequired) ==> (forall i int :: 0 <= i && i < len(list) ==> !final(list)[i].IsRequired)
+//@   ensures sort.sorted {C18,C20}: SortedByName(final(list))
 //@   ensures sort.perm {C18}: (forall i int :: 0 <= i && i < len(list) ==> inseq(list[i], final(list))) && (forall i int :: 0 <= i && i < len(list) ==> inseq(final(list)[i], list))
 
 // Value: reads the receiver of the option's kind (safety: the representation invariant makes that pointer non-nil).
